@@ -28,12 +28,31 @@ def gen_cfg(R, tier, all_atom=None):
     texts = {}
     descs_all = []
     expected_mass = {}
+    prev_mol = None
+    twin_feat = False
+    render_seed = 0
     for f in range(nfr):
+        is_twin = False
         name = 'F%d' % f
         d = defaultdict(list)
         nd = R.choice([1, 2, 2, 3, 4])
-        if all_atom:
+        if all_atom and f == 1 and prev_mol is not None and R.chance(0.25):
+            # the same skeleton as the first fragment, differing only in one formal charge (acid / carboxylate ...)
+            import copy as _copy
+            m = _copy.deepcopy(prev_mol)
+            cand = [i for i, a in enumerate(m.atoms) if a['element'] == 'O' and not a['charge'] and len(m.nbrs(i)) == 1
+                    and m.order(i, m.nbrs(i)[0]) == 1 and not m.atoms[m.nbrs(i)[0]]['aromatic']]
+            cand2 = [i for i, a in enumerate(m.atoms) if a['element'] == 'N' and not a['charge'] and not a['aromatic']
+                     and all(m.order(i, j) == 1 for j in m.nbrs(i)) and m.bondsum(i) <= 3]
+            if cand:
+                m.atoms[R.choice(cand)]['charge'] = -1
+                twin_feat = is_twin = True
+            elif cand2:
+                m.atoms[R.choice(cand2)]['charge'] = 1
+                twin_feat = is_twin = True
+        elif all_atom:
             m = molgen.gen_mol(R, max_heavy=R.choice([1, 3, 6]), p_arom=0.25, p_charge=0.1, p_multi=0.3, p_ring=0.3, hyper=False)
+        if all_atom:
             # descriptors only on non-aromatic atoms: the all-atom sampler does not update the hydrogen
             # count of a bonded aromatic atom and then rejects the molecule as not kekulisable
             cands = [i for i in range(len(m.atoms)) if m.free(i) >= 1 and not m.atoms[i]['aromatic']]
@@ -51,6 +70,8 @@ def gen_cfg(R, tier, all_atom=None):
                 k, lab = R.choice(['$', '$', '>', '<']), R.choice(labs)
                 d[a].append((k, lab, o))
             expected_mass[name] = m.mass()
+            if f == 0:
+                prev_mol = m
         else:
             n = R.randint(1, 3)
             m = None
@@ -76,7 +97,16 @@ def gen_cfg(R, tier, all_atom=None):
                 descs_all.append('%s%s%d' % (k, lab, o))
         if all_atom:
             dtext = {a: [SYM[o] + '[%s%s]' % (k, lab) for (k, lab, o) in lst] for a, lst in d.items()}
-            text, _pos = molgen.render_fragment(R, m, list(range(len(m.atoms))), dtext,
+            RR = R
+            if f == 0 or is_twin:
+                # the first fragment and its charge twin are written with the same atom order (rendering choices
+                # from one drawn seed), so that only the charge distinguishes the two definitions
+                import random as _random
+                from .draw import PyRandom
+                if f == 0:
+                    render_seed = R.randint(0, 10 ** 6)
+                RR = PyRandom(_random.Random(render_seed))
+            text, _pos = molgen.render_fragment(RR, m, list(range(len(m.atoms))), dtext,
                                                dict(bracket=0.25, omit_h=0.5, explicit_single=0.0))    # bracket atoms often without their H count: valence is refilled
         else:
             text = ''.join('[#X%d]' % a + ''.join(SYM[o] + '[%s%s]' % (k, lab) for (k, lab, o) in d.get(a, []))
@@ -126,6 +156,8 @@ def gen_cfg(R, tier, all_atom=None):
         # a target a hair above a mass sum that growth can reach exactly: one more fragment is required
         cfg['target'] = R.choice(sorted(masses.values())) * R.randint(2, 40) + R.choice([1e-4, 1e-6, 3e-3])
         feats.add('target_just_above_a_reachable_sum')
+    if twin_feat:
+        feats.add('two_fragments_differing_only_in_charge')
     if explicit_aa_masses:
         feats.add('all_atom_with_given_masses')
         cfg['expected_mass'] = {}
